@@ -17,7 +17,7 @@ import traceback
 
 sys.path.insert(0, os.path.dirname(os.path.abspath(__file__)))
 
-from sa.core import AnalysisError, Program, Report, finish  # noqa: E402
+from sa.core import AnalysisError, Program, Report, finish, unlisted_violations  # noqa: E402
 
 CLAIMED = ["C01", "C02", "C04", "C05", "C06", "C07", "C08", "C09", "C10", "C11", "C12", "C15", "C16", "C17"]
 
@@ -29,6 +29,12 @@ def run_one(prop, tier):
         mod = importlib.import_module(f"sa.rules.{prop}")
         rep = Report(prop)
         mod.run(prog, rep, tier)
+        if tier == "thorough" and not os.environ.get("VERIF_NO_SELFTEST"):
+            if unlisted_violations(rep):
+                # the tree itself violates the property: report that; variants of a broken tree say nothing
+                rep.extra["self_validation"] = {"skipped": "the analysed tree has violations; seeded variants are only run on a clean tree"}
+            else:
+                self_validate(prop, rep)
         return finish(rep, tier, t0, mod.EXPLANATION, mod.ASSUMPTIONS, prog)
     except AnalysisError as e:
         print(f"ANALYSIS-ERROR property={prop} {e}")
@@ -37,6 +43,31 @@ def run_one(prop, tier):
         traceback.print_exc()
         print(f"ANALYSIS-ERROR property={prop} internal error: {type(e).__name__}: {e}")
         return 2
+
+
+def self_validate(prop, rep):
+    """Thorough tier: the checker is validated on seeded variants of the CURRENT tree (scratch copies in a
+    temporary directory).  An undetected breaking variant or an alarm on a benign variant means the checker is
+    not to be trusted: ANALYSIS-ERROR, never a VIOLATION."""
+    from selftest.run import run_all
+
+    results = run_all(prop=prop, jobs=min(16, os.cpu_count() or 1), quiet=True)
+    bad = [r for r in results if r["status"] == "FAILED"]
+    skipped = [r for r in results if r["status"] == "skipped"]
+    rep.extra["self_validation"] = {
+        "variants_run": len(results),
+        "as_expected": len(results) - len(bad) - len(skipped),
+        "skipped_edit_no_longer_applies": [r["id"] for r in skipped],
+        "failed": [{"id": r["id"], "detail": r["detail"][:300]} for r in bad],
+        "rule": "breaking variants (one instance broken, still compiles) must make the named rule report a VIOLATION; "
+        "benign variants (behaviour-preserving edits) must leave the check at exit 0",
+    }
+    if bad:
+        raise AnalysisError(
+            f"self-validation failed for {len(bad)} seeded variant(s): " + "; ".join(f"{r['id']}: {r['detail'][:160]}" for r in bad[:4])
+        )
+    if results and len(skipped) > len(results) // 2:
+        raise AnalysisError(f"self-validation: {len(skipped)} of {len(results)} seeded variants no longer apply to the current tree")
 
 
 def explain(prop, path):
